@@ -100,6 +100,10 @@ Section Draws.
       else mapM (draw1 im k) idx                                          (* 196-197 *)
     end.
 
+  (* sample_from_distribution, stream.py 320-359: ppf applied to ONE get_draw (the quantile function is external) *)
+  Definition sample_from (ppf : Z -> Z) (crn_init : bool) (im : imap) (k : K) (idx : list label) : result (list Z) :=
+    bind (get_draw crn_init im k idx) (fun ds => Ok (map ppf ds)).
+
   (* ---- histories: what a manager's randomness state is, and what calls do to it ----
      The only state is the shared IndexMap.  Every stream call (get_draw, filter_for_probability, filter_for_rate,
      choice, sample_from_distribution - each performs exactly one get_draw and nothing else on the stream) leaves
